@@ -34,6 +34,8 @@ type Runner struct {
 	natives  map[string]bool
 	execs    []*Exec
 	fatal    string
+	deadline time.Time
+	timedOut bool
 }
 
 func (r *Runner) statFor(h *ssa.Function) *HarnessStats {
@@ -52,6 +54,10 @@ func (r *Runner) worker(id int, e *Exec) {
 		r.mu.Lock()
 		for len(r.queue) == 0 && r.busy > 0 && !r.stop {
 			r.cond.Wait()
+		}
+		if !r.deadline.IsZero() && time.Now().After(r.deadline) && len(r.queue) > 0 {
+			r.timedOut = true
+			r.queue = nil
 		}
 		if r.stop || (len(r.queue) == 0 && r.busy == 0) {
 			r.cond.Broadcast()
@@ -220,6 +226,7 @@ func main() {
 		evidence = flag.String("evidence", "", "evidence file to write")
 		solver   = flag.String("solver", "z3", "z3|z3-new|cvc5")
 		noReplay = flag.Bool("noreplay", false, "skip native replay/validation")
+		budget   = flag.Duration("budget", 0, "wall-clock budget for exploration (0 = tier default)")
 		known    = flag.String("known", "/verif/known_findings.json", "known findings file")
 	)
 	flag.Parse()
@@ -256,6 +263,13 @@ func main() {
 		os.Exit(2)
 	}
 	r := &Runner{w: w, workers: *workers, verbose: *verbose, maxPaths: *maxPaths, sampleN: 3}
+	r.deadline = time.Now().Add(10 * time.Minute)
+	if *tier == "thorough" {
+		r.deadline = time.Now().Add(60 * time.Minute)
+	}
+	if *budget > 0 {
+		r.deadline = time.Now().Add(*budget)
+	}
 	if r.workers > len(hs)*4 && r.workers > 4 {
 		// still fine: alternatives spread over workers
 	}
